@@ -162,9 +162,10 @@ CHECKS = {
              'and - for every text in which each paragraph has a field with a value - shift every recorded range of the WHOLE '
              'object by exactly k, through renaming, merged unknown paragraphs and folded licenses; a merged paragraph spans '
              'the merged ones (smallest start, largest end, both attained); a folded license runs from its License field, or the '
-             'start of the unknown paragraph, to the end of the unknown paragraph. NOT assembled into one statement: that every '
-             'WORD of a value of the final object occurs in lines start..end (proved per field for the lines of the field), and '
-             'the shift law for paragraphs in which no field has a value; both decided by co-execution of the complete model '
+             'start of the unknown paragraph, to the end of the unknown paragraph. and for EVERY text and the FINAL object every word of '
+             'the value of a field stands on a numbered source line inside the range recorded for that field '
+             '(C10_words_in_range: typed values, renamed extras, merged unknown paragraphs, folded licenses). NOT proved: '
+             'the shift law for texts holding a paragraph in which no field has a value; decided by co-execution of the complete model '
              '(ranges included) with copyright.py on texts biased to the recovery paths, each also with 1/2/5 blank lines '
              'prepended, and by the executable statement (bounds, non-blank ends, words inside the range, disjoint and '
              'increasing, shift).',
